@@ -92,7 +92,8 @@ class Spec(PropSpec):
     assumptions = [
         "the background-sync coin and the torn-write block draws are inputs of the model (verif-hooks decision log); the theorems quantify over all their values",
         "expectations are asserted for entries all of whose ancestors are durable; once a crash meets a dangling durable subtree nothing more is asserted for that host",
-        "symlinks, hard links, permissions, timestamps are outside the property; io_uring fsync is covered by C18",
+        "symlinks, hard links, permissions, timestamps are outside the property; ring scheduling / completion order is C18's business (here a ring op is reaped at once)",
+        "the io_uring front-end draws its own background-sync coin that is not in the decision log: cases with ring operations run with sync_probability 0",
     ]
     partial_note = ("two crash-image theorems, both for every history, block size, coin and draw sequence: c07_crash_image_partial "
                     "(alphabet without create_dir_all / remove_dir_all; hypothesis: no class of FsSafe.v - which excludes every "
